@@ -170,4 +170,27 @@ theorem C16_freeze_makes_unavailable :
 example : (tableOf "service").length > 10 ∧ step (tableOf "service") "registering" "approve" "unavailable" = some "available" ∧
     isAvailable "service" "available" = true := by decide +kernel
 
+/-- the governance status of an object under a sequence of (event, remembered last status) pairs; an event the state
+machine refuses leaves the status where it is (the manager returns an error and the transaction is reverted) -/
+def runEvents (obj : String) (st : String) (evs : List (String × String)) : String :=
+  evs.foldl (fun s e => (step (tableOf obj) s e.1 e.2).getD s) st
+
+/-- **a logged-out appchain, service, role or node never becomes anything else again**, whatever governance operations,
+approvals, rejections and cascading operations follow -/
+theorem C16_forbidden_forever (obj : String) (evs : List (String × String)) (hk : obj ∈ finalKinds) :
+    runEvents obj "forbidden" evs = "forbidden" := by
+  unfold runEvents
+  induction evs with
+  | nil => rfl
+  | cons e rest ih =>
+    simp only [List.foldl_cons, C16_forbidden_absorbing obj e.1 e.2 hk, Option.getD_none]
+    exact ih
+
+/-- and therefore never usable (available) again -/
+theorem C16_forbidden_never_available (obj : String) (evs : List (String × String)) (hk : obj ∈ finalKinds) :
+    isAvailable obj (runEvents obj "forbidden" evs) = false := by
+  rw [C16_forbidden_forever obj evs hk]
+  have : ∀ o ∈ finalKinds, isAvailable o "forbidden" = false := by decide
+  exact this obj hk
+
 end Bxh.Props.C16
